@@ -18,10 +18,10 @@ use crate::oracle::{self, dist_ok};
 use crate::util::{case_seed, fmt_f32s, hash_str, Counters, J};
 use crate::{emit, line, Args};
 
-pub const N_CLASSES: usize = 8;
+pub const N_CLASSES: usize = 10;
 
 pub fn class_name(c: usize) -> &'static str {
-    ["grid", "uniform", "cancellation-prone", "tiny", "huge", "signed-zero+subnormal", "mixed-magnitude", "sparse-with-zeros"][c]
+    ["grid", "uniform", "cancellation-prone", "tiny", "huge", "signed-zero+subnormal", "mixed-magnitude", "sparse-with-zeros", "pure-subnormal", "underflowing-products"][c]
 }
 
 pub fn gen_values(rng: &mut StdRng, n: usize, class: usize) -> Vec<f32> {
@@ -39,6 +39,14 @@ pub fn gen_values(rng: &mut StdRng, n: usize, class: usize) -> Vec<f32> {
                 3 => -f32::from_bits(rng.gen_range(1..0x0080_0000u32)),
                 _ => rng.gen_range(-1.0f32..1.0) * 1e-3,
             },
+            // every component subnormal or zero: sums of differences stay subnormal
+            8 => match rng.gen_range(0..4) {
+                0 => 0.0,
+                1 => -f32::from_bits(rng.gen_range(1..0x0080_0000u32)),
+                _ => f32::from_bits(rng.gen_range(1..0x0080_0000u32)),
+            },
+            // normal components whose squares and products are subnormal (gradual underflow in every lane)
+            9 => rng.gen_range(1.0f32..1000.0) * 1e-22 * if rng.gen_bool(0.5) { -1.0 } else { 1.0 },
             6 => {
                 let e = rng.gen_range(-6i32..7);
                 rng.gen_range(-1.0f32..1.0) * 10f32.powi(e)
@@ -122,11 +130,11 @@ fn check_metric<D: Distance>(metric: Metric, a: &[f32], b: &[f32], oa: usize, ob
     let nn = D::norm_no_header(&p.vector);
     let mut s = 0f64;
     for x in a {
-        s += *x as f64 * *x as f64;
+        s += oracle::wide(*x) * oracle::wide(*x);
     }
     let want = s.sqrt();
     let tol = want * (n as f64 + 10.0) * 1.2e-7 + (n as f64 * 2f64.powi(-140)).sqrt();
-    if s < 1e37 && (nn as f64 - want).abs() > tol {
+    if s < 1e37 && (oracle::wide(nn) - want).abs() > tol {
         return Err(format!("{} norm of a {n}-vector at offset {oa}: arroy {nn:e}, definition {want:e} (tolerance {tol:e})", metric.short()));
     }
     cx.c.inc("c11_norms");
@@ -143,9 +151,9 @@ fn check_kernels(a: &[f32], b: &[f32], oa: usize, ob: usize, cx: &mut Ctx) -> Re
     let v = UnalignedVector::<f32>::from_bytes(&bb[ob..]).unwrap();
     let (mut se, mut sd, mut sda) = (0f64, 0f64, 0f64);
     for (x, y) in a.iter().zip(b) {
-        let t = *x as f64 - *y as f64;
+        let t = oracle::wide(*x) - oracle::wide(*y);
         se += t * t;
-        let m = *x as f64 * *y as f64;
+        let m = oracle::wide(*x) * oracle::wide(*y);
         sd += m;
         sda += m.abs();
     }
@@ -165,17 +173,17 @@ fn check_kernels(a: &[f32], b: &[f32], oa: usize, ob: usize, cx: &mut Ctx) -> Re
         cx.c.inc("c11_avx_kernel_calls");
     }
     for (name, e, d) in &all {
-        if se < 1e37 && (*e as f64 - se).abs() > tol_e {
+        if se < 1e37 && (oracle::wide(*e) - se).abs() > tol_e {
             return Err(format!("{name} squared-euclidean kernel, n={n} offsets {oa}/{ob}: {e:e} vs definition {se:e} (tolerance {tol_e:e}); a={} b={}", fmt_f32s(a), fmt_f32s(b)));
         }
-        if sda < 1e37 && (*d as f64 - sd).abs() > tol_d {
+        if sda < 1e37 && (oracle::wide(*d) - sd).abs() > tol_d {
             return Err(format!("{name} dot-product kernel, n={n} offsets {oa}/{ob}: {d:e} vs definition {sd:e} (tolerance {tol_d:e}); a={} b={}", fmt_f32s(a), fmt_f32s(b)));
         }
         // vectorised vs plain within the sum of both bounds
-        if se < 1e37 && (*e as f64 - pe as f64).abs() > 2.0 * tol_e {
+        if se < 1e37 && (oracle::wide(*e) - oracle::wide(pe)).abs() > 2.0 * tol_e {
             return Err(format!("{name} squared-euclidean kernel disagrees with the plain loop for n={n}: {e:e} vs {pe:e}"));
         }
-        if sda < 1e37 && (*d as f64 - pd as f64).abs() > 2.0 * tol_d {
+        if sda < 1e37 && (oracle::wide(*d) - oracle::wide(pd)).abs() > 2.0 * tol_d {
             return Err(format!("{name} dot-product kernel disagrees with the plain loop for n={n}: {d:e} vs {pd:e}"));
         }
         cx.c.inc("c11_kernel_results_checked");
@@ -221,7 +229,7 @@ pub fn run(args: &Args) {
     // order of stored-vector offsets: the first few are the most diverse (aligned, odd, 4-aligned, 7)
     const OFFSETS: [usize; 16] = [0, 1, 4, 7, 2, 3, 5, 6, 8, 9, 10, 11, 12, 13, 14, 15];
     let n_offsets = args.get_u64("offsets", 16) as usize;
-    let class_mask = args.get_u64("classes", 0xff);
+    let class_mask = args.get_u64("classes", 0x3ff);
     for len in 1..=max_len {
         for opair in OFFSETS.iter().copied().take(n_offsets) {
             for rep in 0..reps {
@@ -285,7 +293,7 @@ pub fn run(args: &Args) {
         .set("counters", c.to_json())
         .set("sigs", J::Arr(sigs.iter().map(|s| J::s(format!("{s:x}"))).collect()))
         .set("samples", J::Arr(samples))
-        .set("rule", J::s("case = (length 1..=max_len, byte offset 0..=15 of the stored vector, repetition); per case 8 value classes (grid, uniform, cancellation-prone, tiny, huge, signed-zero+subnormal, mixed-magnitude, sparse) x {Euclidean, Manhattan, Cosine, DotProduct} through the public Distance functions on Leafs borrowed at that offset from exact-size heap buffers, plus every kernel (plain/SSE/AVX) through the hook and the dispatch rule; non-trivial+distinct = distinct (length, offset, class) triples"))
+        .set("rule", J::s("case = (length 1..=max_len, byte offset 0..=15 of the stored vector, repetition); per case 10 value classes (grid, uniform, cancellation-prone, tiny, huge, signed-zero+subnormal, mixed-magnitude, sparse, pure-subnormal, underflowing-products) x {Euclidean, Manhattan, Cosine, DotProduct} through the public Distance functions on Leafs borrowed at that offset from exact-size heap buffers, plus every kernel (plain/SSE/AVX) through the hook and the dispatch rule; non-trivial+distinct = distinct (length, offset, class) triples"))
         .set("required", J::Arr(["c11_distances_vs_definition", "c11_symmetry", "c11_self_distance", "c11_norms"].iter().map(|s| J::s(*s)).collect()))
         .set("wall_s", J::Num(t0.elapsed().as_secs_f64()));
     emit("SUMMARY", &j);
